@@ -97,6 +97,8 @@ def _case(draw, tier):
         cond = ["and", "nary", [d, fa] if combine != "d_last" else [fa, d]]
         split = combine == "top_level"
     order = list(draw(st.permutations(frees)))
+    if nF == 2 and chance(draw, 1, 4):
+        order = order[:1]        # projection onto one of the two free variables (compared as a set)
     sel = [["var", v] for v in order]
     case = {"ents": recs, "doms": doms, "vars": vars_, "cond": cond, "sel": sel,
             "desc": "entity" if (len(sel) == 1 and draw(st.booleans())) else "set_of", "quant": "an",
@@ -134,6 +136,8 @@ def check(case) -> Outcome:
     if A.has_kind(fa[2], "not"):
         feats.append("forall_cond_has_not")
     feats.append(f"free{len(case['vars']) - 1}")
+    if len(case["sel"]) < len(case["vars"]) - 1:
+        feats.append("projected")
     feats.append("universal_is_attribute_expression" if len(fa) > 3 else "universal_is_variable")
     classes = list(feats) + [f"U{min(len(U), 4)}"]
     if case.get("prelude_sharing_comparisons") is not None:
@@ -147,7 +151,7 @@ def check(case) -> Outcome:
                         nontrivial=nontrivial, classes=classes, features=feats)
         finally:
             enable_caching()
-        bad = compare_sets(expected, got, True)
+        bad = compare_sets(expected, got, len(case["sel"]) == len(case["vars"]) - 1)
         if bad:
             return fail(bad[0], f"caching={caching}: {bad[1]}", nontrivial=nontrivial, classes=classes, features=feats)
     return Outcome(True, nontrivial=nontrivial, classes=classes, features=feats)
